@@ -188,6 +188,112 @@ fn pwhash_object_limits(i: &Input) -> Outcome {
     }
 }
 
+/// libsodium's presets (the oracle for `Config::interactive()` & co.): (opslimit, memlimit)
+fn so_preset(preset: u64) -> (u64, u64) {
+    use libsodium_sys as ffi;
+    unsafe {
+        match preset {
+            0 | 1 => (ffi::crypto_pwhash_opslimit_interactive() as u64, ffi::crypto_pwhash_memlimit_interactive() as u64),
+            2 => (ffi::crypto_pwhash_opslimit_moderate() as u64, ffi::crypto_pwhash_memlimit_moderate() as u64),
+            3 => (ffi::crypto_pwhash_opslimit_sensitive() as u64, ffi::crypto_pwhash_memlimit_sensitive() as u64),
+            _ => panic!("{} preset must be 0 (interactive), 1 (default), 2 (moderate) or 3 (sensitive)", HARNESS),
+        }
+    }
+}
+
+/// The four numeric fields of a Config as its serialised form shows them: [opslimit, memlimit, hash_length, salt_length].
+fn config_view(c: &dryoc::pwhash::Config) -> [u64; 4] {
+    let v = match serde_json::to_value(c) {
+        Ok(v) => v,
+        Err(e) => panic!("{} cannot serialise Config: {}", HARNESS, e),
+    };
+    let f = |name: &str| -> u64 {
+        match v.get(name).and_then(|x| x.as_u64()) {
+            Some(x) => x,
+            None => panic!("{} serialised Config has no numeric field {}: {}", HARNESS, name, v),
+        }
+    };
+    [f("opslimit"), f("memlimit"), f("hash_length"), f("salt_length")]
+}
+
+const CONFIG_FIELDS: [&str; 4] = ["opslimit", "memlimit", "hash_length", "salt_length"];
+
+/// preset, steps (one byte per builder call: 0 with_opslimit, 1 with_memlimit, 2 with_hash_length, 3 with_salt_length),
+/// ops, mem, outlen, salt_length [, pw, salt (16)]: a chain of builder calls on a preset, in ANY order.  Each `with_*` call
+/// sets its own field and leaves the other three as they were (statement of the builder; the presets' limits are
+/// libsodium's constants) -- checked after every step on the serialised Config, which costs nothing.  When the chain has set
+/// all of opslimit, memlimit and hash_length (so that the costs are the small ones given) and `pw` is present,
+/// `PwHash::hash_with_salt` equals libsodium's crypto_pwhash with the intended parameters and verifies.
+fn pwhash_config_builder(i: &Input) -> Outcome {
+    use dryoc::pwhash::{Config, VecPwHash};
+    let (preset, steps) = (i.num("preset"), i.get("steps"));
+    let vals = [i.num("ops"), i.num("mem"), i.num("outlen"), i.num("salt_length")];
+    let (pname, mut cfg) = match preset {
+        0 => ("Config::interactive()", Config::interactive()),
+        1 => ("Config::default()", Config::default()),
+        2 => ("Config::moderate()", Config::moderate()),
+        _ => ("Config::sensitive()", Config::sensitive()),
+    };
+    let (pops, pmem) = so_preset(preset);
+    // hash_length 32 = crypto_pwhash_STRBYTES' hash, salt_length = crypto_pwhash_SALTBYTES
+    let mut model: [u64; 4] = [pops, pmem, 32, unsafe { libsodium_sys::crypto_pwhash_saltbytes() } as u64];
+    let mut chain = pname.to_string();
+    let compare = |chain: &str, model: &[u64; 4], cfg: &Config| -> Outcome {
+        let got = config_view(cfg);
+        for k in 0..4 {
+            if got[k] != model[k] {
+                return fail(
+                    format!("{} = {}", CONFIG_FIELDS[k], model[k]),
+                    format!("{} = {}", CONFIG_FIELDS[k], got[k]),
+                    format!(
+                        "{}: the configuration is (opslimit {}, memlimit {}, hash_length {}, salt_length {}), the builder calls say ({}, {}, {}, {})",
+                        chain, got[0], got[1], got[2], got[3], model[0], model[1], model[2], model[3]
+                    ),
+                );
+            }
+        }
+        Ok(())
+    };
+    compare(&chain, &model, &cfg)?;
+    for st in steps {
+        let k = *st as usize;
+        if k > 3 {
+            panic!("{} builder step must be 0..=3", HARNESS);
+        }
+        cfg = match k {
+            0 => cfg.with_opslimit(vals[0]),
+            1 => cfg.with_memlimit(vals[1] as usize),
+            2 => cfg.with_hash_length(vals[2] as usize),
+            _ => cfg.with_salt_length(vals[3] as usize),
+        };
+        model[k] = vals[k];
+        chain = format!("{}.with_{}({})", chain, CONFIG_FIELDS[k], vals[k]);
+        compare(&chain, &model, &cfg)?;
+    }
+    if !i.has("pw") {
+        return Ok(());
+    }
+    if ![0u8, 1, 2].iter().all(|k| steps.contains(k)) || vals[0] > 4 || vals[1] > (1 << 26) {
+        panic!("{} hashing needs a chain that sets opslimit (<= 4), memlimit (<= 64 MiB) and hash_length", HARNESS);
+    }
+    let (pw, salt) = (i.get("pw").to_vec(), i.arr::<16>("salt"));
+    let want = match so::pwhash(vals[2] as usize, &pw, &salt, vals[0], vals[1] as usize, so::ALG_ARGON2ID13) {
+        Some(w) => w,
+        None => panic!("{} libsodium refuses the parameters", HARNESS),
+    };
+    let h = must_ok(VecPwHash::hash_with_salt(&pw, salt.to_vec(), cfg.clone()), &format!("PwHash::hash_with_salt(.., {})", chain))?;
+    let (hash, _, _) = h.clone().into_parts();
+    if hash != want {
+        return fail(hex(&want), hex(&hash), format!("PwHash::hash_with_salt(.., {}) vs libsodium crypto_pwhash(outlen {}, opslimit {}, memlimit {})", chain, vals[2], vals[0], vals[1]));
+    }
+    must_ok(h.verify(&pw), &format!("PwHash::verify(correct password), {}", chain))?;
+    // a hash made by libsodium with the intended parameters, stored under the built configuration
+    must_ok(
+        VecPwHash::from_parts(want, salt.to_vec(), cfg).verify(&pw),
+        &format!("PwHash::from_parts(libsodium's hash, salt, {}).verify(correct password)", chain),
+    )
+}
+
 pub const C09: Registry = &[
     ("pwhash", pwhash),
     // memory sizes whose segment length (m/4 blocks) is above 128 and not a multiple of 128: the data-independent
@@ -200,6 +306,7 @@ pub const C09: Registry = &[
     ("pwhash_out_of_range", pwhash),
     ("pwhash_object", pwhash_object),
     ("pwhash_object_salt_length", pwhash_object_any_salt),
+    ("pwhash_config_builder", pwhash_config_builder),
 ];
 
 pub fn c09(ctx: &mut Ctx) -> Search {
@@ -340,6 +447,62 @@ pub fn c09(ctx: &mut Ctx) -> Search {
             "pwhash_object",
             Input::new().u("outlen", outlen).b("pw", &pw).b("salt", &salt).u("ops", ops).u("mem", mem),
         )?;
+    }
+    // builder chains on every preset, the calls in every order (own generator state)
+    {
+        let mut rng_b = Rng::new(0xB111D + t as u64);
+        let orders: Vec<Vec<u8>> = {
+            // all 24 orders of the four setters
+            let mut v = Vec::new();
+            for a in 0..4u8 {
+                for b in 0..4u8 {
+                    for c in 0..4u8 {
+                        for d in 0..4u8 {
+                            let o = [a, b, c, d];
+                            if (0..4u8).all(|k| o.contains(&k)) {
+                                v.push(o.to_vec());
+                            }
+                        }
+                    }
+                }
+            }
+            v
+        };
+        let params: [(u64, u64, u64, u64); 4] = [(1, 8192, 64, 16), (3, 65536, 16, 24), (2, 16 * 1024, 32, 8), (1, 9 * 1024, 33, 32)];
+        // inspected only (nothing is hashed): single calls and partial chains on every preset, e.g. moderate().with_opslimit(1)
+        for preset in 0..4u64 {
+            let mut partial: Vec<Vec<u8>> = vec![vec![], vec![0], vec![1], vec![2], vec![3], vec![0, 0], vec![1, 0], vec![2, 0], vec![3, 0], vec![0, 1], vec![3, 2, 1], vec![1, 2, 3, 0, 1]];
+            partial.extend(orders.iter().cloned());
+            for (j, steps) in partial.iter().enumerate() {
+                let (ops, mem, outlen, sl) = params[j % 4];
+                ctx.run(
+                    "pwhash_config_builder",
+                    Input::new().u("preset", preset).b("steps", steps).u("ops", ops).u("mem", mem).u("outlen", outlen).u("salt_length", sl),
+                )?;
+            }
+        }
+        // hashed with the (small) costs the chain sets: every order (quick: a third of them per preset)
+        for preset in 0..4u64 {
+            for (j, steps) in orders.iter().enumerate() {
+                if !t && (j + preset as usize) % 4 != 0 && steps[3] != 0 {
+                    continue;
+                }
+                let (ops, mem, outlen, sl) = params[(j + preset as usize) % 4];
+                let (pw, salt) = (rng_b.bytes(1 + j % 11), rng_b.arr::<16>());
+                ctx.run(
+                    "pwhash_config_builder",
+                    Input::new()
+                        .u("preset", preset)
+                        .b("steps", steps)
+                        .u("ops", ops)
+                        .u("mem", mem)
+                        .u("outlen", outlen)
+                        .u("salt_length", sl)
+                        .b("pw", &pw)
+                        .b("salt", &salt),
+                )?;
+            }
+        }
     }
     // object API, caller-supplied salts shorter / equal / longer than Config::salt_length (default 16)
     let mut shapes: Vec<(usize, u64, u64, u64, u64)> = vec![
